@@ -53,7 +53,7 @@ func genC19Sim(seed uint64, tier string) *world.Scenario {
 	return sc
 }
 
-var c19Modes = []string{"ok", "ok-trailing-newlines", "exit3-output", "exit1-silent", "killed-by-signal", "not-executable", "bad-format", "missing",
+var c19Modes = []string{"ok", "ok-trailing-newlines", "exit3-output", "exit1-silent", "killed-by-signal", "not-executable", "bad-format", "missing", "path-through-a-file", "symlink-loop",
 	"sleeper", "sleeper-ignores-sigterm", "grandchild-holds-stdout", "grandchild-and-sleeper", "empty-output", "garbage-output", "huge-output", "stderr-flood"}
 
 var c19Timeouts = []time.Duration{200 * time.Millisecond, 500 * time.Millisecond, time.Second, 2 * time.Second}
@@ -102,7 +102,7 @@ func runC19RT(t *testing.T, sc *world.Scenario) *check.Result {
 		body, perm = "#!/bin/sh\necho 1\n", 0644
 	case "bad-format":
 		body = "\x7fELF this is not an executable\n"
-	case "missing":
+	case "missing", "path-through-a-file", "symlink-loop":
 		body = ""
 	case "sleeper":
 		body = "#!/bin/sh\nsleep " + long + "\necho 1\n"
@@ -123,7 +123,16 @@ func runC19RT(t *testing.T, sc *world.Scenario) *check.Result {
 	case "stderr-flood":
 		body, wantOut, wantErr = "#!/bin/sh\nhead -c 2000000 /dev/zero | tr '\\0' 'e' >&2\necho 9\n", "9", false
 	}
-	if mode != "missing" {
+	switch mode {
+	case "path-through-a-file":
+		// a component of the path is a regular file (ENOTDIR, not ENOENT)
+		_ = os.WriteFile(filepath.Join(dir, "plain"), []byte("x\n"), 0644)
+		exe = filepath.Join(dir, "plain", "cmd.sh")
+	case "symlink-loop":
+		// the executable is a symbolic link to itself (ELOOP)
+		_ = os.Symlink(exe, exe)
+	}
+	if body != "" || (mode != "missing" && mode != "path-through-a-file" && mode != "symlink-loop") {
 		if err := os.WriteFile(exe, []byte(body), perm); err != nil {
 			res.Harness = err.Error()
 			return res
